@@ -22,9 +22,11 @@ def program(ops):
       start | stop | enq<i> | await<i> | join<k> | joint<k> (join with timeout) | open<g>
     After every op the local `prog` records how many ops have completed.
     """
-    lines = []
+    lines = ["global stop_returned, pool_serving, shutdown_request, socket_closed\n"]
     for k, op in enumerate(ops):
-        if op == "start":
+        if op.startswith("raw:"):
+            lines.append(op[4:])
+        elif op == "start":
             lines.append("stop_returned = False\npool.start()\npool_serving = True\n")
         elif op == "stop":
             lines.append("pool_serving = False\npool.stop()\nstop_returned = True\n")
@@ -109,7 +111,7 @@ def build(spec):
         props.append(bmc.Prop("done() is True after result() returned", done_after))
     if "nodeadlock" in want:
         props.append(bmc.Prop("no deadlock while a client still waits (every accepted task gets executed, stop()/join() return)",
-                              None, kind="nodeadlock", when=lambda S: not_(clients_done(S))))
+                              None, kind="nodeadlock", when=lambda S: not_(clients_done(S)), finding=spec.get("deadlock_finding")))
     if "fifo" in want and spec["max"] == 1:
         def fifo(S):
             conj = []
@@ -170,8 +172,13 @@ def build(spec):
 
         props.append(bmc.Prop("after stop() returned every worker has terminated and the thread list is empty", clean, kind="final",
                               when=lambda S: and_(clients_done(S), S["stop_returned"])))
+    if "socket" in want:
+        props.append(bmc.Prop("after server_close() returned the listening socket is closed", lambda S: truthy(S["socket_closed"]),
+                              kind="final", when=lambda S: lt(S["T0.pc"], 0)))
     twin = clients_done
-    if spec.get("twin_prog") == "progress":
+    if spec.get("twin_prog") == "none":
+        twin = None  # the window is expected to end in the (listed) deadlock: its witness is the reachability evidence
+    elif spec.get("twin_prog") == "progress":
         twin = "progress"
     elif spec.get("twin_prog") is not None:
         goal = spec["twin_prog"]
